@@ -377,7 +377,7 @@ func prop(s cs.Spec) common.Result {
 					}
 				}
 			} else if b.AllHonest || s.ViaAPI {
-				if s.Scheme == "bls12" && blsQuirk(w, s, b, v) {
+				if s.Scheme == "bls12" && blsQuirk(w, s, b, v, fmt.Errorf("%s", vd.err)) {
 					return common.Fail(kit.KnownBLS, "REJECTED an honestly assembled certificate (%s) whose signature satisfies the verification equation in other arrangements: the pairing library's false negative\n%s", vd.err, desc)
 				}
 				return common.Fail("rejects-honest:"+s.Kind, "REJECTED an honestly assembled certificate: %s\n%s", vd.err, desc)
@@ -448,15 +448,15 @@ func TestC02Certificates(t *testing.T) {
 
 // blsQuirk decides whether the rejection of an honest BLS certificate is the known false negative of the pairing library:
 // the repository's scheme rejects the signature although it satisfies the verification equation in other arrangements.
-func blsQuirk(w *cs.World, s cs.Spec, b cs.Built, verifier int) bool {
+func blsQuirk(w *cs.World, s cs.Spec, b cs.Built, verifier int, observed error) bool {
 	m := w.Members[verifier-1]
 	switch s.Kind {
 	case "qc":
-		return kit.QuirkQC(m, b.QC)
+		return kit.QuirkQC(m, b.QC, observed)
 	case "tc":
-		return kit.QuirkTC(m, b.TC)
+		return kit.QuirkTC(m, b.TC, observed)
 	case "aggqc":
-		return kit.QuirkAgg(m, b.AggQC)
+		return kit.QuirkAgg(m, b.AggQC, observed)
 	}
 	return false
 }
